@@ -71,7 +71,10 @@ class ExpressionFunction(Callable, SimpleRepr):
         self._fixed_vars = fixed_vars
         self._source_file = source_file
 
-        has_return, self.exp_vars = _analyse_ast(self._expression)
+        has_return, exp_vars = _analyse_ast(self._expression)
+        # Use a deterministic order: the iteration order of a set of str
+        # depends on the hash seed of the process.
+        self.exp_vars = sorted(exp_vars)
 
         # Build the function definition code from the expression:
         f_def = f"def f({', '.join([v for v in self.exp_vars])} ):\n"
